@@ -545,7 +545,8 @@ class Spectrum(numpy.ma.masked_array):
         # Create new spectrum
         new_data = np.zeros(shape=[n+1 for n in new_ns])
         new_fs = Spectrum(new_data, pop_ids=new_pop_ids)
-        # Copy over extrapolation info
+        # Copy over folding status and extrapolation info
+        new_fs.folded = self.folded
         new_fs.extrap_x = self.extrap_x
 
         # Fill new spectrum
